@@ -2,18 +2,23 @@
 proof: coq/Props/C02.v (encode == bit-level layout denotation; TLV lengths and counts exact; decode of a
 conformant encoding yields the value). Tie: Go's bytes == reference bytes (extracted model) byte for byte,
 an independent python walk of Go's bytes by the layout table alone (TLV lengths, counts, order, type codes,
-reserved bits, nothing left over, and the value they denote), and Go's decoder on the reference bytes."""
+reserved bits, nothing left over, and the value they denote), and Go's decoder on the reference bytes.
+Way 1 (checks/enc_ir.py, every run): the Go encoder SOURCE of this run is translated into the encoder IR and the Coq
+kernel checks that it is exactly what the schema compiles to (progs_match, vm_compute); by
+C02_encoder_code_refines_model the IR's semantics is the model the theorems above are about, for all values."""
 import codec_common
+import enc_ir
 
 PID = "C02"
 
 
 def run(tier, seed, replay=None):
-    return codec_common.run(PID, tier, seed, replay, [
-        "reference bytes = the extracted Coq encoder, proved equal to the bit-level layout denotation (Props/C02.v)",
-        "the python structural walk (checks/codec_common.py ref_decode) reads only spec/llrp_layout.json; it is a second, "
-        "independent reading of the layout table and is itself trusted only as a cross-check",
-        "domain = well-formed values (see C01); values with a parameter size >= 2^16 are recorded, not judged",
-        "spec/llrp_layout.json is the pinned copy of messages.yaml; a yaml-only edit is not a violation (the yaml is not compiled in)",
-        "equality of decoded values is modulo nil == empty slice/string",
-    ])
+    with enc_ir.attached(PID, tier, seed, replay):
+        return codec_common.run(PID, tier, seed, replay, [
+            "reference bytes = the extracted Coq encoder, proved equal to the bit-level layout denotation (Props/C02.v)",
+            "the python structural walk (checks/codec_common.py ref_decode) reads only spec/llrp_layout.json; it is a second, "
+            "independent reading of the layout table and is itself trusted only as a cross-check",
+            "domain = well-formed values (see C01); values with a parameter size >= 2^16 are recorded, not judged",
+            "spec/llrp_layout.json is the pinned copy of messages.yaml; a yaml-only edit is not a violation (the yaml is not compiled in)",
+            "equality of decoded values is modulo nil == empty slice/string",
+        ])
